@@ -168,7 +168,7 @@ Clauses_sort_order(ev) ==
       ax  == ev.args.axis
       isperm == /\ SeqSet(ev.args.order) = SeqSet(Ids(pre, ax))
                 /\ Len(ev.args.order) = Len(Ids(pre, ax))
-  IN IF ~isperm THEN [C06_sort_order_domain |-> TRUE]   \* outside the property's quantifier
+  IN IF ~isperm THEN [C06_out_of_domain_not_a_permutation |-> TRUE]   \* outside the property's quantifier
      ELSE IF Failed(ev) THEN [C06_sort_order_succeeds |-> FALSE]
      ELSE LET post == ev.post[ev.res] IN
        PermClauses(pre, post) @@
